@@ -400,14 +400,23 @@ def run_instances(scratch, specs, seed=1, tier="quick", target=None, name="inst"
         for s_ in specs:
             if s_.mod in done:
                 continue
-            rc1, out1, err1, dt1 = run([exe, s_.mod], env={"VERIF_SEED": str(seed)}, timeout=1200)
-            res["run_s"] += dt1
-            outs.append(out1)
-            if rc1 != 0:
+            # a check that kills the process is recorded and skipped in the next run of the same module, so that the
+            # module's remaining checks (other properties) are still decided
+            skip = []
+            for _round in range(24):
+                rc1, out1, err1, dt1 = run([exe, s_.mod], env={"VERIF_SEED": str(seed), "VERIF_SKIP": ";".join(skip)}, timeout=1200)
+                res["run_s"] += dt1
+                if rc1 == 0:
+                    outs.append(out1)
+                    break
                 msgs = [l for l in err1.split("\n") if l.startswith("PANIC:") or "invalid value" in l or "unsafe precondition" in l]
                 at = [l.split("\t") for l in err1.split("\n") if l.startswith("AT\t")]
                 where = at[-1] if at else ["AT", s_.mod, "C02", "?"]
-                crashed[s_.mod] = (where[2], where[3], "process died with status %d during the %s check: %s" % (rc1, where[3], " | ".join(msgs[-3:])[:600] or err1[-300:]))
+                crashed.setdefault(s_.mod, []).append((where[2], where[3], "process died with status %d during the %s check: %s" % (rc1, where[3], " | ".join(msgs[-3:])[:600] or err1[-300:])))
+                key = "%s/%s" % (where[2], where[3])
+                if not at or key in skip:
+                    break
+                skip.append(key)
         out = "\n".join(outs)
         rc = 0
     res["mods_info"] = mods
@@ -422,12 +431,13 @@ def run_instances(scratch, specs, seed=1, tier="quick", target=None, name="inst"
             m = res["modules"].setdefault(p[1], {"fails": [], "evals": 0, "done": False})
             m["evals"] = int(p[2])
             m["done"] = True
-    for modname, (prop, check, why) in crashed.items():
+    for modname, lst in crashed.items():
         m = res["modules"].setdefault(modname, {"fails": [], "evals": 0, "done": False})
         m["done"] = True
-        m["fails"].append({"prop": "C02", "check": "crash in " + check, "detail": why})
-        if prop != "C02":
-            m["fails"].append({"prop": prop, "check": "crash in " + check, "detail": why})
+        for (prop, check, why) in lst:
+            m["fails"].append({"prop": "C02", "check": "crash in " + check, "detail": why})
+            if prop != "C02":
+                m["fails"].append({"prop": prop, "check": "crash in " + check, "detail": why})
     return res
 
 
